@@ -13,19 +13,20 @@ import (
 )
 
 type runnerModel struct {
-	pkg    *packages.Package
-	T      *types.Named // DialogueRunner
-	fStack *types.Var   // container.Stack[*statementQueue]
-	fLast  *types.Var   // *tree.Statement
-	fChan  *types.Var   // <-chan error
-	fNode  *types.Var   // string
-	fVis   *types.Var   // map[string]int
-	fSnap  *types.Var   // map[string]variable.Value
-	fStore *types.Var   // variable.Storer
-	fFuncs *types.Var   // *functionStorer
-	fCmds  *types.Var   // *commandStorer
-	fLP    *types.Var   // markup.LineParser
-	fDlg   *types.Var   // *tree.Dialogue
+	pkg       *packages.Package
+	T         *types.Named // DialogueRunner
+	fStack    *types.Var   // container.Stack[*statementQueue]
+	fLast     *types.Var   // *tree.Statement
+	fChan     *types.Var   // <-chan error (or a pointer to a struct holding it: then fChanRecv is the inner field)
+	fChanRecv *types.Var   // the field the runner receives from (fChan itself unless nested)
+	fNode     *types.Var   // string
+	fVis      *types.Var   // map[string]int
+	fSnap     *types.Var   // map[string]variable.Value
+	fStore    *types.Var   // variable.Storer
+	fFuncs    *types.Var   // *functionStorer
+	fCmds     *types.Var   // *commandStorer
+	fLP       *types.Var   // markup.LineParser
+	fDlg      *types.Var   // *tree.Dialogue
 
 	next, restore, snapshot, ctor             *Func
 	jump, set, ifx, cmd, call, decl, incVisit *Func
@@ -120,7 +121,52 @@ func (w *World) runner() *runnerModel {
 		}
 	}
 	m.fLast = softField("*tree.Statement", "lastStatement")
-	m.fChan = field("<-chan error", "commandErrChan")
+	// the pending-command channel is read by the command and flow properties only
+	{
+		n := len(m.problems)
+		m.fChan = field("<-chan error", "commandErrChan")
+		m.fChanRecv = m.fChan
+		if m.fChan == nil && m.T != nil {
+			// the pending command kept as a pointer to a struct of the package with exactly one <-chan error field
+			if st, ok := m.T.Underlying().(*types.Struct); ok {
+				var outer, inner *types.Var
+				cnt := 0
+				for i := 0; i < st.NumFields(); i++ {
+					pt, ok := st.Field(i).Type().(*types.Pointer)
+					if !ok {
+						continue
+					}
+					nt, ok := pt.Elem().(*types.Named)
+					if !ok || nt.Obj().Pkg() != m.pkg.Types {
+						continue
+					}
+					is, ok := nt.Underlying().(*types.Struct)
+					if !ok {
+						continue
+					}
+					var in *types.Var
+					k := 0
+					for j := 0; j < is.NumFields(); j++ {
+						if typeStr(is.Field(j).Type()) == "<-chan error" {
+							in = is.Field(j)
+							k++
+						}
+					}
+					if k == 1 {
+						outer, inner = st.Field(i), in
+						cnt++
+					}
+				}
+				if cnt == 1 {
+					m.fChan, m.fChanRecv = outer, inner
+					m.problems = m.problems[:n]
+				}
+			}
+		}
+		for i := n; i < len(m.problems); i++ {
+			m.problems[i] = "softchan:" + m.problems[i]
+		}
+	}
 	m.fNode = field("string", "currentNode")
 	m.fVis = field("map[string]int", "visitedNodes")
 	m.fSnap = field("map[string]variable.Value", "variableSnapshot")
@@ -229,11 +275,15 @@ func (w *World) runner() *runnerModel {
 func (m *runnerModel) ok(c *Ctx, rule string) bool {
 	needsFlow := map[string]bool{"C01": true, "C04": true, "C06": true, "C07": true, "C12": true}[c.Prop]
 	bad := false
+	needsChan := needsFlow || c.Prop == "C10"
 	for _, p := range m.problems {
 		if strings.HasPrefix(p, "soft:") && !needsFlow {
 			continue
 		}
-		c.undecided(rule, "anchor: "+strings.TrimPrefix(p, "soft:"))
+		if strings.HasPrefix(p, "softchan:") && !needsChan {
+			continue
+		}
+		c.undecided(rule, "anchor: "+strings.TrimPrefix(strings.TrimPrefix(p, "soft:"), "softchan:"))
 		bad = true
 	}
 	return !bad
